@@ -197,6 +197,7 @@ Proof.
   destruct (paused s); [exact G|].
   destruct (rdy s); cbn [andb]; [|exact G].
   destruct (q s) as [|h t] eqn:Eq; cbn [negb]; [exact G|].
+  destruct (pend s =? 0); cbn [andb]; [|exact G].
   pose proof (G1_dispatch s h t G Eq) as Gd.
   destruct (pumpStuck (dispatch s)); [exact Gd|].
   set (s2 := set_rdy (dispatch s) false).
@@ -845,10 +846,11 @@ Proof.
   - vm_compute. reflexivity.
 Qed.
 
-(** C02 over all schedules is false on this model of the unchanged code: a reconnection
-    (nothing outstanding) racing a send writes the same CALL twice (finding F16) *)
-Example C02_refuted_S1_F16 :
-  wrs (tr (run [Start; Reconn; Drop; Reconn; Send 7 true; PumpReq; PumpReady] (init 0 0))) = [7; 7].
+(** The schedule on which C02 was false of the model of the unrepaired code -- a reconnection (nothing outstanding)
+    racing a send wrote the same CALL twice, finding F16 -- now writes it once: the pump dispatches only while
+    nothing is outstanding. *)
+Example F16_schedule_writes_once :
+  wrs (tr (run [Start; Reconn; Drop; Reconn; Send 7 true; PumpReq; PumpReady] (init 0 0))) = [7].
 Proof. vm_compute. reflexivity. Qed.
 
 (* ------------------------------------------------------------------ *)
